@@ -119,6 +119,44 @@ def unavailable_input_sql(node_expr: str) -> str:
     """
 
 
+def unusable_dynamic_input_sql(node_expr: str) -> str:
+    """Return an `EXISTS`-ready subquery for the dynamic inputs one step still waits for.
+
+    A dynamic (amended) input is unusable while it is detached, whatever its state,
+    or while its state is not `CONFIRMED` or `BUILT`.
+    This is the exact opposite of the `dynamic_inputs_ready` test in `Scheduler._derive_job`:
+    as long as the subquery has a row, a step with a stored hash is given a `ValidateDynamicJob`.
+
+    Shared verbatim by `Step.has_unusable_dynamic_input`,
+    which decides whether a step is parked (`deferred`) after an unchanged validation,
+    and by the trigger `step_node_undefer_reattached` in `STEP_SCHEMA`, which wakes it up again,
+    so the two can never disagree about what a parked step is waiting for.
+
+    Parameters
+    ----------
+    node_expr
+        The SQL expression identifying "this step's node id" in the enclosing query,
+        e.g. `?` or `step.node`.
+
+    Returns
+    -------
+    subquery
+        A `SELECT` statement, suitable as the body of an `EXISTS`/`NOT EXISTS` clause.
+    """
+    return f"""
+    SELECT 1
+    FROM dependency AS dyn_dep
+    JOIN dynamic_dep ON dynamic_dep.i = dyn_dep.i
+    JOIN node AS dyn_node ON dyn_node.i = dyn_dep.source
+    JOIN file AS dyn_file ON dyn_file.node = dyn_dep.source
+    WHERE dyn_dep.sink = {node_expr}
+    AND (
+        dyn_node.detached OR
+        dyn_file.state NOT IN ({FileState.CONFIRMED.value}, {FileState.BUILT.value})
+    )
+    """
+
+
 STEP_SCHEMA = f"""
 CREATE TABLE IF NOT EXISTS step (
     -- Main data
@@ -288,11 +326,18 @@ END;
 -- A deferred step waits for a change of one of its inputs (see Workflow.mark_step_pending).
 -- A detached input that is revived by a full recycle comes back with its state intact,
 -- so nothing changes: the re-attachment itself must make the deferred consumers eligible again.
+-- Only those that have nothing left to wait for, though: a re-attached input can still be
+-- unusable (an orphan that is declared static comes back UNCONFIRMED, one that becomes an output
+-- comes back PLANNED), and the step may wait for other dynamic inputs as well.
+-- Waking it regardless would make the outcome depend on whether the step was deferred before or
+-- after the declaration, and costs a run and one of its defer_cap attempts for nothing.
+-- The state change that makes the last input usable wakes it (Workflow.mark_step_pending).
 CREATE TRIGGER IF NOT EXISTS step_node_undefer_reattached AFTER UPDATE OF detached ON node
 WHEN OLD.detached AND NOT NEW.detached
 BEGIN
     UPDATE step SET deferred = FALSE
-    WHERE deferred AND node IN (SELECT sink FROM dependency WHERE source = NEW.i);
+    WHERE deferred AND node IN (SELECT sink FROM dependency WHERE source = NEW.i)
+    AND NOT EXISTS ({unusable_dynamic_input_sql("step.node")});
 END;
 
 -- Keep _check_after in sync with duration changes, so the scheduler recomputes
@@ -1007,20 +1052,10 @@ class Step(Node):
         whatever its state, which makes it the exact opposite of
         the `dynamic_inputs_ready` test in `Scheduler._derive_job`:
         as long as it holds, a step with a stored hash is given a `ValidateDynamicJob`.
+        The test itself is `unusable_dynamic_input_sql`,
+        shared with the trigger that clears the `deferred` flag again.
         """
-        sql = f"""
-        SELECT EXISTS (
-            SELECT 1 FROM dependency
-            JOIN dynamic_dep ON dynamic_dep.i = dependency.i
-            JOIN node ON node.i = dependency.source
-            JOIN file ON file.node = dependency.source
-            WHERE dependency.sink = ?
-            AND (
-                node.detached OR
-                file.state NOT IN ({FileState.CONFIRMED.value}, {FileState.BUILT.value})
-            )
-        )
-        """
+        sql = f"SELECT EXISTS ({unusable_dynamic_input_sql('?')})"
         return bool(self.db.execute(sql, (self.i,)).fetchone()[0])
 
     def get_defer_count(self) -> int:
